@@ -77,6 +77,8 @@ func childMain() {
 	c := vkit.NewCollector("C14", seed, "child")
 	if os.Args[4] == "controlled" {
 		runControlled(c, vkit.NewRng(seed), budget)
+	} else if os.Args[4] == "shared-options" {
+		runSharedOptions(c, vkit.NewRng(seed), budget)
 	} else {
 		runFree(c, vkit.NewRng(seed), budget)
 	}
@@ -88,7 +90,7 @@ func childMain() {
 }
 
 func run(c *vkit.Collector, rng *vkit.Rng, budget int) {
-	for _, phase := range []string{"controlled", "free-running"} {
+	for _, phase := range []string{"controlled", "shared-options", "free-running"} {
 		runChild(c, rng, budget, phase)
 	}
 	// the same rounds under the race detector
@@ -410,6 +412,35 @@ func runSchedule(sp stress.Spec, ws []work, pick func(step int, enabled []int) i
 	return res
 }
 
+// serialWrites counts the cell-map writes (hook point 8) of ONE goroutine running the same
+// operations one after the other on an identical fresh loop (0 when every operation is turned
+// away by the bound check and nobody ever builds the index).
+var serialWritesMemo = map[string]int{}
+
+func serialWrites(sp stress.Spec, ws []work) int {
+	key := ""
+	for _, w := range ws {
+		key += w.name + "|"
+	}
+	if n, ok := serialWritesMemo[key]; ok {
+		return n
+	}
+	l := s2.RegularLoop(ll(sp.Lat, sp.Lng), s1.Angle(sp.R)*s1.Degree, sp.N)
+	ix := s2.VerifC13LoopIndex(l)
+	n := 0
+	s2.VerifSched = func(point int, i *s2.ShapeIndex) {
+		if i == ix && point == s2.VerifPtCellMapWrite {
+			n++
+		}
+	}
+	for _, w := range ws {
+		w.run(l)
+	}
+	s2.VerifSched = nil
+	serialWritesMemo[key] = n
+	return n
+}
+
 func contains(xs []int, x int) bool {
 	for _, y := range xs {
 		if y == x {
@@ -471,8 +502,9 @@ func runControlled(c *vkit.Collector, rng *vkit.Rng, budget int) {
 		for _, p := range r.problems {
 			c.Violate("controlled.mutex", p, replay)
 		}
-		if len(r.writers) > 1 || r.nwrites != serialCells {
-			c.Violate("controlled.applied-once", fmt.Sprintf("cell-map writes: %d by goroutines %v; the single-threaded build writes %d cells once", r.nwrites, r.writers, serialCells), replay)
+		wantWrites := serialWrites(sp, ws) // what one goroutine running the same operations writes
+		if len(r.writers) > 1 || r.nwrites != wantWrites {
+			c.Violate("controlled.applied-once", fmt.Sprintf("cell-map writes: %d by goroutines %v; one goroutine running the same operations writes %d cells, once", r.nwrites, r.writers, wantWrites), replay)
 		}
 		if cases < 450*budget && how != "probe" {
 			cases++
